@@ -97,6 +97,7 @@ namespace detail {
             ::vrt::point();
             f.pend = ::vrt::P_NONE; f.timed = false;
             if (core.can_acquire_excl()) { acquire_excl(); return true; }
+            f.timed_failures++;
             return false;
         }
         // shared side
@@ -148,6 +149,7 @@ namespace detail {
             ::vrt::point();
             f.pend = ::vrt::P_NONE; f.timed = false;
             if (core.can_acquire_shared()) { acquire_shared(); return true; }
+            f.timed_failures++;
             return false;
         }
     };
